@@ -99,7 +99,7 @@ abbrev MStep := Local → St → Local × St
 
 def guard (f : MStep) : MStep := fun l s => if l.stop then (l, s) else f l s
 
-/-- `Pool.process(job)` (341-353).  `pick` resolves which element `set.pop()` returns. -/
+/-- `Pool.process(job)` (341-354).  `pick` resolves which element `set.pop()` returns. -/
 def procBody (mx pick : Nat) : List MStep :=
   [ -- the job gets its (ghost) number; `if self.closed: raise PoolError(...)`
     fun l s =>
@@ -130,7 +130,7 @@ def procBody (mx pick : Nat) : List MStep :=
       | some w => (l, { (s.signal w (some l.job)) with accepted := s.accepted ++ [(l.job, w)] })
       | none => (l, s) ]
 
-/-- `Pool.notify_done(worker)` (355-367) -/
+/-- `Pool.notify_done(worker)` (356-367) -/
 def notifyBody (mn : Nat) (w : Wid) : List MStep :=
   [ -- `if worker in self.busy:`
     fun l s => ({ l with flag := decide (w ∈ s.busy) }, s),
